@@ -86,3 +86,25 @@ def fix_dups(m):
                         m[key][s][a] = list(m[key][s][b])
                 break
     return m
+
+
+def corridors(rng, N, lengths, PD=1):
+    """A LARGE deterministic table MDP: N - sum(lengths+1) inert states (both actions loop in place, reward 0)
+    followed by corridors.  In a corridor action 1 steps right and action 0 stays; only its absorbing last state
+    pays.  From the all-zero start policy iteration switches exactly one more state per corridor and iteration, so
+    improvement steps that change very few states out of very many occur for max(lengths) iterations."""
+    nxt = [[[s], [s]] for s in range(N)]
+    rew = [[[0], [0]] for _ in range(N)]
+    pk = [[[1], [1]] for _ in range(N)]
+    pos = N
+    for L in lengths:
+        end = pos - 1
+        rew[end] = [[rng.randint(1, 3)], [rng.randint(1, 3)]]
+        rew[end][1] = list(rew[end][0])
+        for i in range(L):
+            s_ = end - L + i
+            nxt[s_][1] = [s_ + 1]
+        pos = end - L
+    m = {"ns": N, "na": 2, "ne": 1, "next": nxt, "rew": rew, "pk": pk, "PD": 1, "rexp": 0, "v0": [0] * N, "v0exp": 0}
+    m["render"] = T.default_render(N, 2, 1, rng, plain=True)
+    return m
